@@ -254,6 +254,7 @@ func runC16(ctx *Ctx) *Result {
 		res.sample(3, map[string]interface{}{"shape": sh.String(), "required": keysOf(required), "enqueued": keysOf(enq)})
 	}
 	if ctx.mine(0) {
+		c16Sequences(ctx, res, w, report)
 		c16SetEvents(ctx, res, w, report)
 		c16Worker(ctx, res, w, report)
 	}
@@ -270,6 +271,72 @@ func keysOf(m map[string]bool) []string {
 	}
 	sort.Strings(l)
 	return l
+}
+
+// c16Sequences: event sequences in which what a handler may remember from an earlier event has gone
+// stale: the set's selector (which this CRD does not make immutable) changes between two orphan events,
+// a set is deleted and re-created with another selector / UID.
+func c16Sequences(ctx *Ctx, res *Result, w *world.World, report func(int, string, string, interface{})) {
+	mkSet := func(uid string, lbl string) *asv1.StatefulSet {
+		s := world.NewSet(world.SetOpts{Name: "web", Replicas: 1, Labels: map[string]string{"app": lbl}})
+		s.UID = types.UID(uid)
+		return s
+	}
+	orphan := func(lbl string, rv string) *corev1.Pod {
+		return &corev1.Pod{ObjectMeta: metav1.ObjectMeta{Name: "web-3", Namespace: world.NS, Labels: map[string]string{"app": lbl}, ResourceVersion: rv, UID: "p"}}
+	}
+	key := world.NS + "/web"
+	enqueued := func(f func(h cache.ResourceEventHandler)) bool {
+		before := len(w.Q.Ops)
+		for _, h := range w.Handlers(simapi.Pods) {
+			f(h)
+		}
+		for _, op := range w.Q.Ops[before:] {
+			if op.Op == "add" && op.Item == key {
+				return true
+			}
+		}
+		return false
+	}
+	for _, variant := range []string{"selector-updated", "set-recreated"} {
+		w.Reset()
+		idx := w.Indexer(simapi.Sets)
+		old := mkSet("uid-1", "a")
+		idx.Add(old)
+		// an orphan event under the old selector (lets a handler remember whatever it likes)
+		if !enqueued(func(h cache.ResourceEventHandler) { h.OnAdd(orphan("a", "1"), false) }) {
+			report(-1, "lost-wakeup", "sequence "+variant+": orphan matching the set's selector did not enqueue it", nil)
+		}
+		neu := mkSet("uid-1", "b")
+		if variant == "set-recreated" {
+			neu = mkSet("uid-2", "b")
+			idx.Delete(old)
+			for _, h := range w.Handlers(simapi.Sets) {
+				h.OnDelete(old)
+			}
+			idx.Add(neu)
+			for _, h := range w.Handlers(simapi.Sets) {
+				h.OnAdd(neu, false)
+			}
+		} else {
+			idx.Update(neu)
+			for _, h := range w.Handlers(simapi.Sets) {
+				h.OnUpdate(old, neu)
+			}
+		}
+		res.Evaluations += 2
+		res.Stats["event_sequences"]++
+		res.sig("seq/" + variant)
+		if !enqueued(func(h cache.ResourceEventHandler) { h.OnAdd(orphan("b", "2"), false) }) {
+			report(-1, "lost-wakeup", "sequence "+variant+": after the set's selector became app=b an orphan labelled app=b did not enqueue the set", nil)
+		}
+		if enqueued(func(h cache.ResourceEventHandler) { h.OnAdd(orphan("a", "3"), false) }) {
+			report(-1, "spurious-wakeup", "sequence "+variant+": after the set's selector became app=b an orphan labelled app=a still enqueued the set", nil)
+		}
+		if !enqueued(func(h cache.ResourceEventHandler) { h.OnUpdate(orphan("a", "4"), orphan("b", "5")) }) {
+			report(-1, "lost-wakeup", "sequence "+variant+": an orphan relabelled to app=b did not enqueue the set", nil)
+		}
+	}
 }
 
 func c16SetEvents(ctx *Ctx, res *Result, w *world.World, report func(int, string, string, interface{})) {
@@ -432,5 +499,5 @@ func init() {
 		Assume: []string{"the work queue is the harness' deterministic virtual-time implementation of workqueue.RateLimitingInterface; the property is about the controller's calls on it", "sets in the cache have valid selectors (a sibling with an unparsable selector makes GetPodStatefulSets fail for every set of the namespace; noted, outside the quantifier)"},
 		Cases:  func(string) int { return 16 }, Run: runC16,
 		Race: runLive("C16"), RaceCases: scenarioCases(16, 160),
-		Floors: []string{"pod_event_shapes", "shapes_with_required_wakeups", "shapes_with_expression_selectors", "set_event_shapes", "failed_reconciles_through_worker", "successful_reconciles_through_worker"}})
+		Floors: []string{"pod_event_shapes", "shapes_with_required_wakeups", "shapes_with_expression_selectors", "event_sequences", "set_event_shapes", "failed_reconciles_through_worker", "successful_reconciles_through_worker"}})
 }
